@@ -109,7 +109,8 @@ class C17(object):
                    'fresh interpreter started with the same PYTHONHASHSEED']
     required_counters = ('fresh_vs_history.compared', 'series.compared', 'reparse.judged', 'logging.on', 'trace.on',
                          'resolve.on', 'steady_state_option.on', 'history.exclusion_list_of_another_solver_edited_in_place',
-                         'reparse.second_block_without_run_parameter_lines')
+                         'reparse.second_block_without_run_parameter_lines',
+                         'reparse.second_block_is_scenario_with_same_names_and_horizon')
 
     def n_cases(self, tier):
         return 32 if tier == 'quick' else 1200
@@ -121,13 +122,26 @@ class C17(object):
             b = G.gen_affine(rng, rho=0.5, tol=rng.choice([1e-9, 1e-9, 1e-12, 1e-6]), maxtime=rng.randint(1, 6))
             b_text = G.render(b)
             omits = False
+            same_names = False
+            if idx % 8 == 3:
+                # the second block is a scenario of the first: same names, same horizon, other exogenous values and constants
+                import copy as _copy
+                b = _copy.deepcopy(a)
+                for e in b['exos']:
+                    e['values'] = [v + 1.5 for v in e['values']]
+                    e['form'] = 'list'
+                    e['text'] = repr(e['values'])
+                for cst in b['consts']:
+                    cst['value'] = cst['value'] + 0.25
+                b_text = G.render(b)
+                same_names = True
             if idx % 8 == 7:
                 # the second block leaves horizon and tolerance to the defaults (no MaxTime / Err_Tolerance line)
                 b = G.gen_affine(rng, rho=0.5, tol=1e-9, maxtime=2, n_exo=0)
                 b_text = '\n'.join(l for l in G.render(b).split('\n')
                                    if not l.replace(' ', '').startswith(('MaxTime=', 'Err_Tolerance=')))
                 omits = True
-            return {'kind': 'reparse', 'A': G.render(a), 'B': b_text, 'B_omits_run_parameters': omits,
+            return {'kind': 'reparse', 'A': G.render(a), 'B': b_text, 'B_omits_run_parameters': omits, 'B_is_scenario_of_A': same_names,
                     'B_names': sorted(set(G.all_value_names(b) + [d['name'] for d in b['decos']] + ['k', 't'])),
                     'reduction': rng.random() < 0.5, 'solve_A': rng.random() < 0.8}
         if idx % 8 not in (1, 5) and rng.random() < 0.5:
@@ -321,6 +335,8 @@ class C17(object):
         rec.count('reparse.judged')
         if case.get('B_omits_run_parameters'):
             rec.count('reparse.second_block_without_run_parameter_lines')
+        if case.get('B_is_scenario_of_A'):
+            rec.count('reparse.second_block_is_scenario_with_same_names_and_horizon')
         keys = sorted(s.TimeSeries.keys())
         if keys != case['B_names']:
             rec.violate('remnants_of_previous_block', {'extra': sorted(set(keys) - set(case['B_names'])),
